@@ -210,13 +210,14 @@ class VCSAPI:
         # NOTE: str.splitlines would also split at characters that may be part of a name
         ls_tag_lines = self('ls_tags').split("\n")
         logger.debug(f"ls_tags output {ls_tag_lines}")
-        return [line.strip().split(" ", 1)[0] for line in ls_tag_lines]
+        # NOTE: str.strip would also remove (unicode) blanks that are part of a tag name
+        return [line.strip(" \t\r").split(" ", 1)[0] for line in ls_tag_lines]
 
     def ls_tags_branch(self) -> typ.List[str]:
         """List vcs tags on all branches."""
         ls_tag_lines = self('ls_tags_branch').split("\n")
         logger.debug(f"ls_tags_branch output {ls_tag_lines}")
-        return [line.strip().split(" ", 1)[0] for line in ls_tag_lines]
+        return [line.strip(" \t\r").split(" ", 1)[0] for line in ls_tag_lines]
 
     def add(self, path: str) -> None:
         """Add updates to be included in next commit."""
